@@ -14,7 +14,10 @@ func init() {
 			if idx%4 == 3 {
 				// termination stratum: fertiliser prediction at any latitude, inside a small batch
 				sc := genBatch(r, false, 4)
-				sc.Params = map[string]string{"mode": "serial", "stratum": "prognose"}
+				if sc.Params == nil {
+					sc.Params = map[string]string{}
+				}
+				sc.Params["mode"], sc.Params["stratum"] = "serial", "prognose"
 				for i := range sc.Lines {
 					w := sc.Worlds[sc.Lines[i].World]
 					span := int(w.Cfg.End - w.Start())
@@ -28,7 +31,10 @@ func init() {
 				return sc
 			}
 			sc := genBatch(r, true, 20)
-			sc.Params = map[string]string{"mode": []string{"serial", "permute", "serial"}[idx%3]}
+			if sc.Params == nil {
+				sc.Params = map[string]string{}
+			}
+			sc.Params["mode"] = []string{"serial", "permute", "serial"}[idx%3]
 			if r.Bool(0.3) {
 				sc.Params["log"] = "0"
 			}
